@@ -39,6 +39,10 @@ def run(ctx):
     ctx.min_instances('C19.R4', 3)
     r5(ctx)
     ctx.min_instances('C19.R5', 4)
+    r6(ctx)
+    ctx.min_instances('C19.R6', 3)
+    from . import _rowtear
+    _rowtear.check(ctx, 'C19.R4', ('hotspot',))
     ctx.min_instances('C19.R1', 8)
     ctx.min_instances('C19.R2', 9)
     ctx.min_instances('C19.R3', 4)
@@ -472,3 +476,98 @@ def r5(ctx):
                     'table with %d term columns: %s' % (W, bad),
                     note='width %d' % W,
                     key='%s | column map width %d' % (fi.full, W))
+
+
+def r6(ctx):
+    """Every dT-dependent subfactor expression is evaluated and stored: the
+    loop over the expression table stores, unconditionally and once,
+    _eval_expr(expression, dT of the expression's own column) into the cell
+    (type, row, column) the expression was read from."""
+    fi = ctx.repo.func('hotspot', '_evaluate_hcf_expr')
+    hcf, exprs, dT = fi.params[:3]
+    loops = [n for n in fi.node.body if isinstance(n, ast.For)
+             and exprs in src(n.iter)]
+    if len(loops) != 1:
+        raise AnalysisError('_evaluate_hcf_expr: expression loop')
+    lp = loops[0]
+    comp = {}
+    expr_texts = set()
+    tg = lp.target
+    if isinstance(tg, ast.Tuple) and len(tg.elts) == 2 and \
+            src(lp.iter) == '%s.items()' % exprs:
+        # for <key>, <expression> in expr_dict.items()
+        expr_texts.add(src(tg.elts[1]))
+        tg = tg.elts[0]
+    if isinstance(tg, ast.Name):
+        k = tg.id
+        comp = {'%s[0]' % k: 0, '%s[1]' % k: 1, '%s[2]' % k: 2}
+        expr_texts.add('%s[%s]' % (exprs, k))
+    elif isinstance(tg, ast.Tuple) and len(tg.elts) == 3 and all(
+            isinstance(e, ast.Name) for e in tg.elts):
+        k = src(tg)
+        comp = {e.id: i for i, e in enumerate(tg.elts)}
+        expr_texts.add('%s[%s]' % (exprs, k))
+        expr_texts.add('%s[%s]' % (exprs, k.strip('()')))
+    else:
+        raise AnalysisError('_evaluate_hcf_expr: expression loop target')
+    for a in ast.walk(lp):
+        if isinstance(a, ast.Assign) and isinstance(a.targets[0], ast.Tuple) \
+                and src(a.value) == k and len(a.targets[0].elts) == 3:
+            for i, e in enumerate(a.targets[0].elts):
+                comp[src(e)] = i
+    sts = [(t, st) for t, st in U.stores(lp)
+           if isinstance(t, ast.Subscript) and src(t).startswith(hcf)]
+    jumps = [n for n in ast.walk(lp) if isinstance(n, (ast.Continue,
+                                                       ast.Break,
+                                                       ast.Return))]
+    ctx.require(len(sts) == 1 and not jumps, 'C19.R6', fi,
+                (jumps or [s_[1] for s_ in sts[1:]] or [lp])[0],
+                'each expression must be evaluated and stored exactly once '
+                'per pass of the loop (found %d stores, %d early exits): an '
+                'expression that is skipped leaves its uncertainty out of '
+                'the hot-spot temperature' % (len(sts), len(jumps)),
+                key=fi.full + ' | one unconditional store')
+    if not sts:
+        return
+    t, st = sts[0]
+    inner_guards = [g for g, pol in U.guards(st)
+                    if lp in _anc(g)]
+    ctx.require(not inner_guards, 'C19.R6', fi, st,
+                'the store of the evaluated expression is conditional on %s'
+                % [src(g) for g in inner_guards],
+                key=fi.full + ' | store unguarded')
+    # target cell = (k[0])[:, k[1], k[2]]
+    ok_t = isinstance(t.value, ast.Subscript) and src(t.value.value) == hcf \
+        and comp.get(src(t.value.slice)) == 0 and isinstance(
+            t.slice, ast.Tuple) and len(t.slice.elts) == 3 and \
+        src(t.slice.elts[0]) == ':' and \
+        comp.get(src(t.slice.elts[1])) == 1 and \
+        comp.get(src(t.slice.elts[2])) == 2
+    v = U.value_at(fi.node, st.value, st.lineno,
+                   keep=tuple(fi.params) + tuple(
+                       x.id for x in ast.walk(lp.target)
+                       if isinstance(x, ast.Name)) + tuple(
+                       c for c in comp if c.isidentifier()))
+    ok_v = isinstance(v, ast.Call) and call_name(v) == '_eval_expr' and \
+        len(v.args) == 2 and src(v.args[0]) in expr_texts and \
+        isinstance(v.args[1], ast.Subscript) and \
+        src(v.args[1].value) == dT and isinstance(
+            v.args[1].slice, ast.Tuple) and len(v.args[1].slice.elts) == 2 \
+        and src(v.args[1].slice.elts[0]) == ':' and \
+        comp.get(src(v.args[1].slice.elts[1])) == 2
+    ctx.require(ok_t and ok_v, 'C19.R6', fi, st,
+                'expression (type, row, column) must be evaluated with the '
+                'temperature rises of its own column for every assembly '
+                '(dT[:, column]) and stored into cell [:, row, column] of '
+                'its own type; got `%s = %s`'
+                % (src(t), ' '.join(src(v).split())),
+                key=fi.full + ' | cell and column')
+
+
+def _anc(n):
+    from ..core import parent
+    out = []
+    while n is not None:
+        out.append(n)
+        n = parent(n)
+    return out
